@@ -128,6 +128,7 @@ type Exec struct {
 	Races         []Race
 	Steps         int
 	Threads       int
+	Unmodelled    string // the execution met something the runtime model does not cover: it must not be judged
 	Diverged      bool // a recorded prefix could not be followed: executions are not reproducible (state survives between executions)
 	UsedSelect    bool // a select statement was executed (the reductions of mode A do not model its clause choice)
 	SleepBlocked  bool // the execution was cut because every enabled thread was in the sleep set (equivalent to explored ones)
@@ -412,6 +413,11 @@ func (s *sched) threadRoot(t *thread, f func()) {
 		wasAborting := s.aborting
 		if _, ok := r.(abortSentinel); ok || wasAborting {
 			t.aborted = true
+		} else if me, isMach := r.(MachineryError); isMach {
+			// not a panic of the code under test: the model met something it does not cover
+			if s.machErr == "" {
+				s.machErr = me.Msg
+			}
 		} else if r != nil {
 			t.panicked = true
 			t.panicVal = r
@@ -568,11 +574,22 @@ func RunOnce(cfg Config, prefix []int, threads []ThreadSpec) *Exec {
 	ex.Races = s.races
 	ex.ElisionBroken = s.elisionBroken
 	ex.Events = s.events
-	if s.machErr != "" {
-		panic(MachineryError{s.machErr})
-	}
+	// a construct or situation the model does not cover (or the step guard): the execution says nothing
+	// about the code under test and must not be judged
+	ex.Unmodelled = s.machErr
+	lastUnmodelled = s.machErr
 	return ex
 }
+
+var lastUnmodelled string
+
+// LastUnmodelled reports whether the most recent execution met something the
+// runtime model does not cover ("" if not): whatever a harness concludes from
+// such an execution says nothing about the code under test.
+func LastUnmodelled() string { return lastUnmodelled }
+
+// ClearUnmodelled forgets the last execution (called when a new unit of work starts).
+func ClearUnmodelled() { lastUnmodelled = "" }
 
 func describe(obj any) string {
 	switch o := obj.(type) {
